@@ -845,7 +845,8 @@ fn boundary(cx: &mut Ctx, thorough: bool) {
 	let mut c = base(5);
 	c.lp = Some((Pos::Smp(2), End::Cus(Pos::Smp(2))));
 	cx.go("boundary_loop_empty", &c, true);
-	let mut c = base(5);
+	let mut c = base(12);
+	c.steps = steps_plain(&[2, 9], dt);
 	c.steps[1].cmds.push(Cmd::Loop(Pos::Smp(1), End::Cus(Pos::Smp(1))));
 	cx.go("boundary_loop_empty", &c, true);
 	if thorough {
@@ -963,7 +964,7 @@ pub fn run(args: &Args) {
 	// ---- interpolate_frame itself, arbitrary binary32 inputs
 	let n_interp = (if args.thorough { 3000 } else { 400 }) * m;
 	for i in 0..n_interp {
-		let mut g = |r: &mut Rng| if i % 3 == 0 { (gen_f32(r), gen_f32(r)) } else { ((r.unit_f64() * 2.0 - 1.0) as f32, (r.unit_f64() * 2.0 - 1.0) as f32) };
+		let g = |r: &mut Rng| if i % 3 == 0 { (gen_f32(r), gen_f32(r)) } else { ((r.unit_f64() * 2.0 - 1.0) as f32, (r.unit_f64() * 2.0 - 1.0) as f32) };
 		let (p, c, n1, n2) = (g(&mut rng), g(&mut rng), g(&mut rng), g(&mut rng));
 		let x = match rng.below(6) {
 			0 => 0.0f32,
